@@ -56,7 +56,7 @@ class Concat(Expr):
     @functools.cached_property
     def _meta(self):
         # ignore DataFrame without columns to avoid dtype upcasting
-        return make_meta(
+        meta = make_meta(
             methods.concat(
                 [
                     meta_nonempty(df._meta)
@@ -70,6 +70,17 @@ class Concat(Expr):
                 **self._kwargs,
             )
         )
+        if (
+            self.axis == 0
+            and meta.index.name is not None
+            and all(df._meta.index.nlevels == 1 for df in self._frames)
+            and len({df._meta.index.name for df in self._frames}) > 1
+        ):
+            # pandas only keeps an index name that all inputs share, but the
+            # stand-in data of the metas can leak the name of the first frame
+            # (RangeIndex.append with a non-range integer index keeps it)
+            meta.index = meta.index.rename(None)
+        return meta
 
     def _divisions(self):
         dfs = self._frames
